@@ -356,6 +356,30 @@ def fclient_client_destinationTripper_wellKnownTransport : List String := [
   "return f.wellKnown"
 ]
 
+def fclient_client_type_Client : List String := [
+  "type Client struct { client http.Client userAgent string }"
+]
+
+def fclient_client_type_ClientOption : List String := [
+  "type ClientOption func(*clientOptions)"
+]
+
+def fclient_client_type_UserInfo : List String := [
+  "type UserInfo struct { Sub string `json:\"sub\"` }"
+]
+
+def fclient_client_type_clientOptions : List String := [
+  "type clientOptions struct { transport http.RoundTripper dnsCache *DNSCache timeout time.Duration skipVerify bool keepAlives bool wellKnownSRV bool userAgent string allowNetworks []string denyNetworks []string }"
+]
+
+def fclient_client_type_destinationTripper : List String := [
+  "type destinationTripper struct { transports map[string]*destinationTripperTransport transportsMutex sync.Mutex skipVerify bool resolutionCache sync.Map dnsCache *DNSCache keepAlives bool wellKnownSRV bool dialer *net.Dialer wellKnown *http.Transport }"
+]
+
+def fclient_client_type_destinationTripperTransport : List String := [
+  "type destinationTripperTransport struct { *http.Transport lastUsed atomic.Value }"
+]
+
 def fclient_dnscache_DNSCache_DialContext : List String := [
   "func func(ctx context.Context, network, address string) (net.Conn, error)",
   "return c.dialContext(ctx, &c.dialer, address)"
@@ -440,6 +464,22 @@ def fclient_dnscache__chainControls : List String := [
   "return func(ctx context.Context, network, address string, conn syscall.RawConn) error { for _, control := range controls { if control == nil { continue } if err := control(ctx, network, address, conn); err != nil { return err } } return nil }"
 ]
 
+def fclient_dnscache_type_DNSCache : List String := [
+  "type DNSCache struct { resolver netResolver mutex sync.Mutex size int duration time.Duration entries map[string]*dnsCacheEntry dialer net.Dialer }"
+]
+
+def fclient_dnscache_type_controlFunc : List String := [
+  "type controlFunc func(ctx context.Context, network, address string, conn syscall.RawConn) error"
+]
+
+def fclient_dnscache_type_dnsCacheEntry : List String := [
+  "type dnsCacheEntry struct { addrs []net.IPAddr expires time.Time }"
+]
+
+def fclient_dnscache_type_netResolver : List String := [
+  "type netResolver interface { LookupIPAddr(context.Context, string) ([]net.IPAddr, error) }"
+]
+
 def fclient_resolve__ResolveServer : List String := [
   "func func(ctx context.Context, serverName spec.ServerName) (results []ResolutionResult, err error)",
   "return resolveServer(ctx, serverName, true)"
@@ -512,6 +552,10 @@ def fclient_resolve__resolveServer : List String := [
   "}",
   "}",
   "return handleNoWellKnown(ctx, serverName), nil"
+]
+
+def fclient_resolve_type_ResolutionResult : List String := [
+  "type ResolutionResult struct { Destination string Host spec.ServerName TLSServerName string }"
 ]
 
 def fclient_well_known__LookupWellKnown : List String := [
@@ -596,6 +640,14 @@ def fclient_well_known__withWellKnownTransport : List String := [
   "return context.WithValue(ctx, wellKnownTransportKey{}, transport)"
 ]
 
+def fclient_well_known_type_WellKnownResult : List String := [
+  "type WellKnownResult struct { NewAddress spec.ServerName `json:\"m.server\"` CacheExpiresAt int64 }"
+]
+
+def fclient_well_known_type_wellKnownTransportKey : List String := [
+  "type wellKnownTransportKey struct{}"
+]
+
 def spec_servername__ParseAndValidateServerName : List String := [
   "func func(serverName ServerName) (host string, port int, valid bool)",
   "if len(serverName) == 0 {",
@@ -662,6 +714,10 @@ def spec_servername__splitServerName : List String := [
   "return nameStr[:lastColon], int(port)"
 ]
 
-def functions : List String := ["fclient/client.go:Client.CreateMediaDownloadRequest", "fclient/client.go:Client.DoHTTPRequest", "fclient/client.go:Client.DoRequestAndParseResponse", "fclient/client.go:Client.GetServerKeys", "fclient/client.go:Client.GetVersion", "fclient/client.go:Client.LookupServerKeys", "fclient/client.go:Client.LookupUserInfo", "fclient/client.go:Client.SetUserAgent", "fclient/client.go:.NewClient", "fclient/client.go:.WithAllowDenyNetworks", "fclient/client.go:.WithDNSCache", "fclient/client.go:.WithKeepAlives", "fclient/client.go:.WithSkipVerify", "fclient/client.go:.WithTimeout", "fclient/client.go:.WithTransport", "fclient/client.go:.WithUserAgent", "fclient/client.go:.WithWellKnownSRVLookups", "fclient/client.go:.allowDenyNetworksControl", "fclient/client.go:.inRange", "fclient/client.go:.isAllowed", "fclient/client.go:.makeHTTPSURL", "fclient/client.go:.newDestinationTripper", "fclient/client.go:.newDestinationTripperDialer", "fclient/client.go:destinationTripper.RoundTrip", "fclient/client.go:destinationTripper.getTransport", "fclient/client.go:destinationTripper.reaper", "fclient/client.go:destinationTripper.wellKnownTransport", "fclient/dnscache.go:DNSCache.DialContext", "fclient/dnscache.go:DNSCache.dialContext", "fclient/dnscache.go:DNSCache.dialContextVia", "fclient/dnscache.go:DNSCache.lookup", "fclient/dnscache.go:.NewDNSCache", "fclient/dnscache.go:.chainControls", "fclient/resolve.go:.ResolveServer", "fclient/resolve.go:.handleNoWellKnown", "fclient/resolve.go:.lookupSRV", "fclient/resolve.go:.resolveServer", "fclient/well_known.go:.LookupWellKnown", "fclient/well_known.go:.withWellKnownTransport", "spec/servername.go:.ParseAndValidateServerName", "spec/servername.go:.isDNSNameChar", "spec/servername.go:.splitServerName"]
+def spec_servername_type_ServerName : List String := [
+  "type ServerName string"
+]
+
+def functions : List String := ["fclient/client.go:Client.CreateMediaDownloadRequest", "fclient/client.go:Client.DoHTTPRequest", "fclient/client.go:Client.DoRequestAndParseResponse", "fclient/client.go:Client.GetServerKeys", "fclient/client.go:Client.GetVersion", "fclient/client.go:Client.LookupServerKeys", "fclient/client.go:Client.LookupUserInfo", "fclient/client.go:Client.SetUserAgent", "fclient/client.go:.NewClient", "fclient/client.go:.WithAllowDenyNetworks", "fclient/client.go:.WithDNSCache", "fclient/client.go:.WithKeepAlives", "fclient/client.go:.WithSkipVerify", "fclient/client.go:.WithTimeout", "fclient/client.go:.WithTransport", "fclient/client.go:.WithUserAgent", "fclient/client.go:.WithWellKnownSRVLookups", "fclient/client.go:.allowDenyNetworksControl", "fclient/client.go:.inRange", "fclient/client.go:.isAllowed", "fclient/client.go:.makeHTTPSURL", "fclient/client.go:.newDestinationTripper", "fclient/client.go:.newDestinationTripperDialer", "fclient/client.go:destinationTripper.RoundTrip", "fclient/client.go:destinationTripper.getTransport", "fclient/client.go:destinationTripper.reaper", "fclient/client.go:destinationTripper.wellKnownTransport", "fclient/client.go:type Client", "fclient/client.go:type ClientOption", "fclient/client.go:type UserInfo", "fclient/client.go:type clientOptions", "fclient/client.go:type destinationTripper", "fclient/client.go:type destinationTripperTransport", "fclient/dnscache.go:DNSCache.DialContext", "fclient/dnscache.go:DNSCache.dialContext", "fclient/dnscache.go:DNSCache.dialContextVia", "fclient/dnscache.go:DNSCache.lookup", "fclient/dnscache.go:.NewDNSCache", "fclient/dnscache.go:.chainControls", "fclient/dnscache.go:type DNSCache", "fclient/dnscache.go:type controlFunc", "fclient/dnscache.go:type dnsCacheEntry", "fclient/dnscache.go:type netResolver", "fclient/resolve.go:.ResolveServer", "fclient/resolve.go:.handleNoWellKnown", "fclient/resolve.go:.lookupSRV", "fclient/resolve.go:.resolveServer", "fclient/resolve.go:type ResolutionResult", "fclient/well_known.go:.LookupWellKnown", "fclient/well_known.go:.withWellKnownTransport", "fclient/well_known.go:type WellKnownResult", "fclient/well_known.go:type wellKnownTransportKey", "spec/servername.go:.ParseAndValidateServerName", "spec/servername.go:.isDNSNameChar", "spec/servername.go:.splitServerName", "spec/servername.go:type ServerName"]
 
 end VPins.C16
